@@ -519,16 +519,21 @@ def gen_client(ch, max_msgs=6, allow_abandon=False, text_only=False):
     else:
         events.append({'type': 'websocket.connect'})
         n = ch.draw(max_msgs + 1, 'n_msgs')
+        # servers differ in how they spell a message event: only the key that carries the payload,
+        # or both keys with the other one None (the ASGI spec allows either)
+        both = ch.draw(3, 'event_both_keys') == 2
         for i in range(n):
             k = 0 if text_only else ch.draw(3, 'msg_kind')
             if k in (0, 1):
                 # text; payload is valid JSON so receive_media works too
                 p = '"m%d"' % i
-                events.append({'type': 'websocket.receive', 'text': p})
+                events.append({'type': 'websocket.receive', 'text': p, 'bytes': None} if both else
+                              {'type': 'websocket.receive', 'text': p})
                 messages.append(('text', p))
             else:
                 p = ('"b%d"' % i).encode()
-                events.append({'type': 'websocket.receive', 'bytes': p})
+                events.append({'type': 'websocket.receive', 'bytes': p, 'text': None} if both else
+                              {'type': 'websocket.receive', 'bytes': p})
                 messages.append(('bytes', p))
     code = None
     d = ch.draw(4, 'disconnect')
